@@ -800,7 +800,7 @@ func histTexts(X []string, h []int) []string {
 }
 
 func finishC13(r *harness.Run, k map[string]int64, notes map[string]interface{}) harness.Coverage {
-	r.Rule = "for each expression of the scenario universe (every built-in incl. calls on array/object literals stored in the AST, core and projection sentences) breadth-first search over Search histories on one compiled object, 8 documents incl. failing ones; state = digest of (all private fields of the compiled expression, every package-level variable); searched to a fixpoint (all histories of any length) plus all histories up to length 2 (thorough 3) replayed call by call; every result equals the fresh-Compile result and the one-shot Search result (map order fixed by the instrumented build, so equality is exact). Parser: BFS over Parse histories on one Parser over an alphabet of 60 valid / lexer-failing / parser-failing expressions, state = VerifParserState, plus all histories up to length 2 (thorough 3); each Parse equals NewParser().Parse on AST render and error (type, message, offset). Member order: for 75 order-dependent expressions x 14 documents every sequence of map-iteration orders (each range over a map is a choice point; deviations from the sorted order bounded by 2, thorough 3, and unbounded for calls with few requests) must return an outcome the reference model admits for some member order. Process-global state: every sequence of two (thorough three) one-shot Search + Compile calls with different or equal expressions of the alphabet in one process must answer like the first call did. Non-trivial = transitions; distinct by history"
+	r.Rule = "for each expression of the scenario universe (every built-in incl. calls on array/object literals stored in the AST, core and projection sentences) breadth-first search over Search histories on one compiled object, 8 documents incl. failing ones; state = digest of (all private fields of the compiled expression, every package-level variable); searched to a fixpoint (all histories of any length) plus all histories up to length 2 (thorough 3) replayed call by call; every result equals the fresh-Compile result and the one-shot Search result (map order fixed by the instrumented build, so equality is exact). Parser: BFS over Parse histories on one Parser over an alphabet of 60 valid / lexer-failing / parser-failing expressions, state = VerifParserState, plus all histories up to length 2 (thorough 3); each Parse equals NewParser().Parse on AST render and error (type, message, offset). Member order: for 75 hand-written order-dependent expressions and every sentence of the projection fragment with an object wildcard up to weight 4 (thorough 5) x 14 documents every sequence of map-iteration orders (each range over a map is a choice point; deviations from the sorted order bounded by 2, thorough 3, and unbounded for calls with few requests) must return an outcome the reference model admits for some member order. Process-global state: every sequence of two (thorough three) one-shot Search + Compile calls with different or equal expressions of the alphabet in one process must answer like the first call did. Non-trivial = transitions; distinct by history"
 	r.Assumptions = []string{"fixpoint: if every operation maps the single reachable state to itself and answers as a fresh object does, all longer histories are covered", "object-member order is harness-decided in this build"}
 	r.States = k["states"] + k["parser_states"]
 	r.Transitions = k["transitions"] + k["parser_transitions"]
@@ -817,7 +817,7 @@ func finishC13(r *harness.Run, k map[string]int64, notes map[string]interface{})
 	r.Note("distinct_expression_histories", fmt.Sprintf("%d histories of N distinct one-shot expressions (N from 4 to 70000: a fixed list plus the integer literals of the tree and their neighbours) followed by the early, middle and late ones again: %d calls", k["distinct_expression_histories"], k["distinct_expression_calls"]))
 	r.Evaluations += k["distinct_expression_calls"]
 	r.Traces += k["distinct_expression_histories"]
-	r.Note("map_order_exploration", fmt.Sprintf("%d (expression, document) pairs, %d executions over %d map-order requests, %d pairs explored without deviation bound, %d pairs with more than one admissible outcome observed", k["maporder_pairs"], k["maporder_executions"], k["maporder_requests"], k["maporder_pairs_explored_without_bound"], k["maporder_pairs_with_several_outcomes"]))
+	r.Note("map_order_exploration", fmt.Sprintf("%d (expression, document) pairs, %d executions over %d map-order requests, %d pairs explored without deviation bound, the others up to deviation bound 1/2/3: %d/%d/%d pairs, %d pairs with more than one admissible outcome observed", k["maporder_pairs"], k["maporder_executions"], k["maporder_requests"], k["maporder_pairs_explored_without_bound"], k["maporder_pairs_completed_at_bound_1"], k["maporder_pairs_completed_at_bound_2"], k["maporder_pairs_completed_at_bound_3"], k["maporder_pairs_with_several_outcomes"]))
 	r.Evaluations += k["maporder_executions"]
 	r.Traces += k["maporder_executions"]
 	r.Transitions += k["maporder_requests"]
